@@ -129,7 +129,14 @@ func init() {
 		w.assume(c, "Cut "+name)
 		return nil
 	})
+	reg("verifnd.PanicsOnly", func(w *World, t *Thread, fr *frame, fn *ssa.Function, args []Value) Value {
+		w.ext["panicsonly"] = true
+		return nil
+	})
 	reg("verifnd.Assert", func(w *World, t *Thread, fr *frame, fn *ssa.Function, args []Value) Value {
+		if _, po := w.ext["panicsonly"]; po {
+			return nil
+		}
 		name := w.concStr(fr, args[1], "obligation name")
 		w.checkObligation(args[0].(*Term), name, "assert", "", w.where(fr))
 		return nil
